@@ -50,7 +50,11 @@ UnreachableLinks(sh, plan) == {x \in DOMAIN sh.links : \E j \in DOMAIN sh.links[
                                  /\ IsGroup(sh, g) /\ Inside(sh.links[x].srcs[j].obj, g)
                                  /\ (sh.links[x].tobj \in sh.plains \/ Index(plan, g) < Index(plan, OwnerOf(sh, sh.links[x].tobj)))}
 \* the damage of a misordered link is confined to that link and its sources: every other link still satisfies the
-\* property, every object that is not a source of a misordered link is constructed exactly once
+\* property, every object that is not a source of a misordered link is constructed exactly once.  (A source whose
+\* un-instantiated spec arrives too early can be constructed a second time inside the target; another link fed from
+\* that source may then see either instance: occurrence numbers of such sources are not compared.)
+AnyOcc(v, S) == IF v.k \in {"obj", "attr"} /\ v.o \in S THEN [v EXCEPT !.n = 1] ELSE v
+NormVal(v, S) == IF v.k = "fn" THEN [v EXCEPT !.args = [j \in DOMAIN v.args |-> AnyOcc(v.args[j], S)]] ELSE AnyOcc(v, S)
 Confined(sh, log, bad) ==
   LET okl  == {x \in DOMAIN sh.links : x \notin bad}
       srcs == UNION {{sh.links[x].srcs[j].obj : j \in DOMAIN sh.links[x].srcs} : x \in bad}
@@ -60,7 +64,7 @@ Confined(sh, log, bad) ==
      /\ \A x \in okl : /\ \A j \in DOMAIN sh.links[x].srcs : sh.links[x].tobj \in sh.objs =>
                                FirstNew(log, sh.links[x].srcs[j].obj) < FirstNew(log, sh.links[x].tobj)
                         /\ \A n \in NewOf(log, sh.links[x].tobj) :
-                               sh.links[x].param \in DOMAIN log[n].kw /\ log[n].kw[sh.links[x].param] = Expected(sh.links, x)
+                               sh.links[x].param \in DOMAIN log[n].kw /\ NormVal(log[n].kw[sh.links[x].param], srcs) = Expected(sh.links, x)
 
 CheckInst(n) ==
   LET ob    == Insts[n]
